@@ -31,7 +31,13 @@ Inductive c14case :=
         (go_status : list N) (go_levels : list (res N))
   (* a history with the other ways of changing label data (see [hwrite]); bs = the instance's BlockSize *)
 | CHist (maxlevel : N) (bs : N * N * N) (writes : list hwrite) (wx wy wz : Z) (wn : N * N * N)
-        (go_status : list N) (go_levels : list (list (res N))).   (* the levels read back after EVERY step *)
+        (go_status : list N) (go_levels : list (list (res N)))    (* the levels read back after EVERY step *)
+  (* a history over a version DAG: every write carries the version it goes to: 0 = the root (before it is
+     committed), 1 = the newversion child of the committed root, 2 = its branch child (a sibling of 1); both
+     children are open and written in any interleaving.  go_levels: after EVERY step, for every version
+     that exists then (the root alone before the fork, afterwards child 1 then child 2), all levels *)
+| CDag (maxlevel : N) (bs : N * N * N) (writes : list (N * hwrite)) (wx wy wz : Z) (wn : N * N * N)
+       (go_status : list N) (go_levels : list (list (list (res N)))).
 
 Definition res_eqb {A} (eqb : A -> A -> bool) (a b : res A) : bool :=
   match a, b with
@@ -198,6 +204,23 @@ Fixpoint hist_run (bs : N * N * N) (st : list (list N)) (ws : list hwrite) (wx w
 Definition hist_levels (maxlevel : N) (bs : N * N * N) (ws : list hwrite) (wx wy wz : Z) (n : N * N * N) : list (list (res N)) :=
   hist_run bs (zero_levels n (N.to_nat maxlevel)) ws wx wy wz n.
 
+(* version DAG: one pyramid per open version; a root write (before the fork) is inherited by both
+   children, a write in one child leaves its sibling as it was.  After each step every version's levels
+   are what its OWN level 0 gives (per-version oracle). *)
+Fixpoint dag_run (bs : N * N * N) (sa sb : list (list N)) (ws : list (N * hwrite)) (wx wy wz : Z) (n : N * N * N)
+  : list (list (list (res N))) :=
+  match ws with
+  | [] => []
+  | (v, w) :: r =>
+    let sa' := if v =? 2 then sa else hstep bs sa wx wy wz n w in
+    let sb' := if v =? 1 then sb else hstep bs sb wx wy wz n w in
+    let dg := fun st : list (list N) => map (fun a => Ok (digest a)) st in
+    (if v =? 0 then [dg sa'] else [dg sa'; dg sb']) :: dag_run bs sa' sb' r wx wy wz n
+  end.
+
+Definition dag_levels (maxlevel : N) (bs : N * N * N) (ws : list (N * hwrite)) (wx wy wz : Z) (n : N * N * N) :=
+  let z := zero_levels n (N.to_nat maxlevel) in dag_run bs z z ws wx wy wz n.
+
 Definition hist_status (ws : list hwrite) : list N :=
   map (fun w => match w with WBlocks _ _ false _ _ _ _ _ => 1 | WRelabel _ false _ _ _ _ _ _ => 1 | _ => 0 end) ws.
 
@@ -326,12 +349,14 @@ Definition model_ok (c : c14case) : bool :=
     | Some lv => list_eqb (list_eqb (res_eqb N.eqb)) lv go_levels
     | None => true
     end
+  | CDag _ _ _ _ _ _ _ _ _ => true
   end.
 
 (* the property on the implementation's outputs.
    0 holds; 1 panic (HTTP 500 with a recovered panic); 2 Block.Downres result differs from the
    documented down-sampling; 3 DownresLabels differs from the vote; 4 a level read over HTTP differs
-   from the down-sampling of the level below (CHist: from the level the history leaves there); 5 a legal
+   from the down-sampling of the level below (CHist: from the level the history leaves there; CDag: in ANY
+   open version, from what that version's own level 0 gives); 5 a legal
    write or read was refused, or an illegal option combination accepted *)
 Definition spec_class (c : c14case) : nat :=
   match c with
@@ -368,6 +393,12 @@ Definition spec_class (c : c14case) : nat :=
     else if negb (list_eqb N.eqb go_status (hist_status writes)) then 5%nat
     else if existsb (fun r => match r with Panic => true | _ => false end) (concat go_levels) then 1%nat
     else if list_eqb (list_eqb (res_eqb N.eqb)) (hist_levels maxlevel bs writes wx wy wz wn) go_levels
+    then 0%nat else 4%nat
+  | CDag maxlevel bs writes wx wy wz wn go_status go_levels =>
+    if existsb (fun s => s =? 2) go_status then 1%nat
+    else if negb (list_eqb N.eqb go_status (hist_status (map snd writes))) then 5%nat
+    else if existsb (fun r => match r with Panic => true | _ => false end) (concat (concat go_levels)) then 1%nat
+    else if list_eqb (list_eqb (list_eqb (res_eqb N.eqb))) (dag_levels maxlevel bs writes wx wy wz wn) go_levels
     then 0%nat else 4%nat
   end.
 
